@@ -26,6 +26,9 @@ from odxmodel import emit, harness, refodx, space
 from odxmodel.harness import jval, show
 from odxmodel.space import P, U8, std
 
+import odxtools.cli.main  # noqa: E402,F401  (imported eagerly, under the default mode: whatever a module remembers from its
+# import time is then the same in every exploring worker and in every replay, instead of depending on the schedule that came first)
+
 PROPERTY = "C17"
 LEVEL = "model_checking"
 
